@@ -3,6 +3,7 @@ import ast
 import importlib
 
 from sa import model
+from sa import norm
 from sa.model import AnalysisError
 
 TITLE = 'stdlib names resolve; re.Match API kinds; sibling symmetry'
@@ -346,9 +347,39 @@ def check_match_api(repo, rep):
     rep.floor('re.Match API obligations', n, 3)
 
 
+class _FlipNot(ast.NodeTransformer):
+    """not (a is b) -> a is not b, etc.; not not x -> x"""
+    FLIP = {ast.Is: ast.IsNot, ast.IsNot: ast.Is, ast.Eq: ast.NotEq,
+            ast.NotEq: ast.Eq, ast.In: ast.NotIn, ast.NotIn: ast.In}
+
+    def visit_UnaryOp(self, n):
+        self.generic_visit(n)
+        if isinstance(n.op, ast.Not):
+            o = n.operand
+            if isinstance(o, ast.Compare) and len(o.ops) == 1 and \
+                    type(o.ops[0]) in self.FLIP:
+                return ast.Compare(left=o.left,
+                                   ops=[self.FLIP[type(o.ops[0])]()],
+                                   comparators=o.comparators)
+            if isinstance(o, ast.UnaryOp) and isinstance(o.op, ast.Not):
+                return o.operand
+        return n
+
+
 def body_text(fi, subst, rename=None):
-    body = model.strip_docstring(fi.node.body)
-    txt = '\n'.join(ast.unparse(s) for s in body)
+    """Text of the body in a normal form: one-expression module helpers
+    inlined, single-use straight-line locals substituted, negated
+    comparisons flipped; then the sibling substitution applied."""
+    import copy
+    body = [copy.deepcopy(x) for x in model.strip_docstring(fi.node.body)]
+    repo = fi.module.repo if hasattr(fi.module, 'repo') else None
+    out = []
+    for st in body:
+        st2 = norm.inline_simple_calls(None, fi.module, st)
+        st2 = _FlipNot().visit(st2)
+        ast.fix_missing_locations(st2)
+        out.append(ast.unparse(st2))
+    txt = '\n'.join(out)
     return _subst(txt, subst)
 
 
@@ -422,6 +453,13 @@ def check_siblings(repo, rep):
                               fa.params()[2]]
             else:
                 ok = args == fb.params()
+        if not ok and a == 'int_by_string':
+            # both may do the same thing through a common helper: equal
+            # bodies once the two operands are swapped
+            pa = fa.params()
+            swap = {pa[0]: '\0', pa[1]: pa[0]}
+            ta = _subst(_subst(body_text(fa, {}), swap), {'\0': pa[1]})
+            ok = ta == body_text(fb, {}) and pa == fb.params()
         rep.ob('R19c', '%s:%s->%s' % (modname, a, b), ok,
                '%s must hand its arguments to %s under the same parameter '
                'names (in %s\'s order)' % (a, b, b), loc=mod.loc(fa.node))
